@@ -1657,3 +1657,226 @@ Proof.
     + rewrite HG, remove_node_wb_other; auto. rewrite Hk. auto.
     + intros b X. subst k. apply HN. rewrite <- Hk. unfold key_node, KBatch. cbn. apply nid_eta.
 Qed.
+
+(* ---------- all mutations ---------- *)
+
+Lemma batched_step_RB : forall d s o, RB d s -> spec_wf_op s o = true ->
+  exists d', batched_step d o = Some d' /\ RB d' (spec_step s o).
+Proof.
+  intros d s o HR Hwf. destruct o.
+  - now apply save_raft_state_RB.
+  - now apply save_snapshots_RB.
+  - eexists. split; [reflexivity|]. now apply remove_entries_to_RB.
+  - now apply remove_node_data_RB.
+  - now apply import_snapshot_RB.
+  - eexists. split; [reflexivity|]. now apply reopen_RB.
+Qed.
+
+Lemma RB_init : RB pdb_init spec_init.
+Proof.
+  split; [exact I | split].
+  - intros k v H. discriminate.
+  - intros n. constructor.
+    + apply Rn_G. apply (proj2 (proj2 R_init) n).
+    + constructor; cbn; try (intros; discriminate); try contradiction; exact I.
+    + exact I.
+Qed.
+
+(* ---------- GetSnapshot ---------- *)
+
+Lemma get_snapshot_RB : forall d s n, RB d s ->
+  canon (QSnap n) (fst (p_get_snapshot d n)) = spec_answer s (QSnap n) /\ RB (snd (p_get_snapshot d n)) s.
+Proof.
+  intros d s n HRB. pose proof (RB_R _ _ HRB) as HR. destruct HRB as (HS & HW & H).
+  destruct (get_snapshot_refines d (sstrip s) n HR) as [A (HS' & HW' & HR')]. split; [exact A|].
+  split; [exact HS' | split; [exact HW'|]]. intros n'.
+  assert (Hkv : p_kv (snd (p_get_snapshot d n)) = p_kv d /\
+                c_batch (p_cache (snd (p_get_snapshot d n)) n') = c_batch (p_cache d n')).
+  { unfold p_get_snapshot. destruct (list_snapshots (p_kv d) n) as [l|]; [|auto].
+    destruct (last_opt l); [|auto]. cbn [snd p_kv p_cache]. split; [reflexivity|].
+    unfold cs_set_snapshot_index, cupd. destruct (nid_eqb n' n) eqn:E; [|reflexivity].
+    apply nid_eqb_eq in E. now subst. }
+  destruct Hkv as [K1 K2]. destruct (H n') as [A1 B1 C1]. constructor.
+  - apply Rn_G. apply HR'.
+  - rewrite K1, K2. exact B1.
+  - exact C1.
+Qed.
+
+(* ---------- scanning a sparsely populated key range ---------- *)
+
+Fixpoint sparse (m : kv) (t s r lo : N) (cnt : nat) : kv :=
+  match cnt with
+  | O => []
+  | S c => (match kv_get m (mkKey t s r lo) with Some v => [(mkKey t s r lo, v)] | None => [] end)
+           ++ sparse m t s r (lo + 1) c
+  end.
+
+Lemma range_sparse : forall cnt m t s r lo, sorted m ->
+  kv_range m (mkKey t s r lo) (mkKey t s r (lo + N.of_nat cnt)) false = sparse m t s r lo cnt.
+Proof.
+  induction cnt as [|c IH]; intros m t s r lo HS.
+  - replace (lo + N.of_nat 0) with lo by lia. apply range_empty.
+  - cbn [sparse]. rewrite (range_split m _ (mkKey t s r (lo + 1))) by (auto; apply pre_kle; lia).
+    rewrite (range_single m _ _ (mkKey t s r lo)); auto.
+    + f_equal. replace (lo + N.of_nat (S c)) with (lo + 1 + N.of_nat c) by lia. now apply IH.
+    + intros k' H1 H2. destruct (pre_between _ _ _ _ _ _ H1 H2) as (x & -> & Hx). f_equal. lia.
+    + apply pre_kle. lia.
+    + apply pre_klt. lia.
+Qed.
+
+(* the stored batches with consecutive ids from lo, as long as they exist *)
+Fixpoint bprefix (g : gfun) (n : nid) (lo : N) (cnt : nat) : list (list entry) :=
+  match cnt with
+  | O => []
+  | S c => match g (KBatch n lo) with
+           | Some (VBatch raw) => raw :: bprefix g n (lo + 1) c
+           | _ => []
+           end
+  end.
+
+Lemma restore_head : forall raw, raw <> [] -> exists e0 r r', raw = e0 :: r /\ restore_if_many raw = e0 :: r'.
+Proof.
+  intros [|e0 [|e1 r]] H; [contradiction | exists e0, [], []; auto |].
+  cbn [restore_if_many]. unfold restore_batch. destruct (e_term _ =? 0); eauto.
+Qed.
+
+Lemma sparse_head_id : forall cnt m n lo cb nd, BC (kv_get m) cb nd n ->
+  match sparse m c09_tag_entry_batch (fst n) (snd n) lo cnt with
+  | [] => True
+  | (_, v) :: _ => exists e0 r, v = VBatch (e0 :: r) /\ lo <= batch_id (e_index e0)
+  end.
+Proof.
+  induction cnt as [|c IH]; intros m n lo cb nd HB; [exact I|]. cbn [sparse].
+  destruct (kv_get m (mkKey c09_tag_entry_batch (fst n) (snd n) lo)) as [v|] eqn:G.
+  - cbn [app]. change (mkKey c09_tag_entry_batch (fst n) (snd n) lo) with (KBatch n lo) in G.
+    destruct (bc_typed _ _ _ _ HB _ _ G) as (raw & ->). destruct (bc_all _ _ _ _ HB _ _ G) as (R1 & R2 & R3 & R4).
+    destruct (restore_head raw R1) as (e0 & r & r' & -> & RR). exists e0, r. split; [reflexivity|].
+    destruct (R3 e0) as (A & _); [rewrite RR; now left|]. lia.
+  - cbn [app]. specialize (IH m n (lo + 1) cb nd HB).
+    destruct (sparse m c09_tag_entry_batch (fst n) (snd n) (lo + 1) c) as [|[k v] t]; [exact I|].
+    destruct IH as (e0 & r & -> & L). exists e0, r. split; [reflexivity | lia].
+Qed.
+
+Lemma batches_scan_sparse : forall cnt m n lo cb nd, BC (kv_get m) cb nd n ->
+  batches_scan (sparse m c09_tag_entry_batch (fst n) (snd n) lo cnt) lo = Some (bprefix (kv_get m) n lo cnt).
+Proof.
+  induction cnt as [|c IH]; intros m n lo cb nd HB; [reflexivity|]. cbn [sparse bprefix].
+  change (mkKey c09_tag_entry_batch (fst n) (snd n) lo) with (KBatch n lo).
+  destruct (kv_get m (KBatch n lo)) as [v|] eqn:G.
+  - destruct (bc_typed _ _ _ _ HB _ _ G) as (raw & ->). destruct (bc_all _ _ _ _ HB _ _ G) as (R1 & R2 & R3 & R4).
+    destruct (restore_head raw R1) as (e0 & r & r' & -> & RR). cbn [app batches_scan].
+    destruct (R3 e0) as (A & _); [rewrite RR; now left|]. rewrite A, N.eqb_refl.
+    now rewrite (IH m n (lo + 1) cb nd HB).
+  - cbn [app]. pose proof (sparse_head_id c m n (lo + 1) cb nd HB) as HH.
+    destruct (sparse m c09_tag_entry_batch (fst n) (snd n) (lo + 1) c) as [|[k v] t]; [reflexivity|].
+    destruct HH as (e0 & r & -> & L). cbn [batches_scan].
+    assert (batch_id (e_index e0) =? lo = false) as -> by (apply N.eqb_neq; lia). reflexivity.
+Qed.
+
+(* ---------- the double loop of batchedEntries.iterate ---------- *)
+
+Fixpoint ts (maxsz size : N) (l : list entry) : list entry * N * bool :=
+  match l with
+  | [] => ([], size, false)
+  | e :: t =>
+    let size' := size + esize e in
+    if maxsz <? size' then ([e], size', true)
+    else let '(r, s, b) := ts maxsz size' t in (e :: r, s, b)
+  end.
+
+Lemma ts_take_size : forall l maxsz size, take_size maxsz size l = (fst (fst (ts maxsz size l)), snd (fst (ts maxsz size l))).
+Proof.
+  induction l as [|e l IH]; intros maxsz size; [reflexivity|]. cbn [ts take_size].
+  destruct (maxsz <? size + esize e); [reflexivity|]. rewrite IH.
+  destruct (ts maxsz (size + esize e) l) as [[r s] b]. reflexivity.
+Qed.
+
+Definition sumsz (l : list entry) : N := fold_left (fun s e => s + esize e) l 0.
+Lemma fold_sumsz : forall l a, fold_left (fun s e => s + esize e) l a = a + sumsz l.
+Proof.
+  unfold sumsz. induction l as [|e l IH]; intros a; cbn [fold_left]; [lia|].
+  rewrite IH. rewrite (IH (0 + esize e)). lia.
+Qed.
+Lemma sumsz_app : forall a b, sumsz (a ++ b) = sumsz a + sumsz b.
+Proof. intros. unfold sumsz at 1. rewrite fold_left_app, fold_sumsz. reflexivity. Qed.
+
+Lemma ts_size : forall l maxsz size r s b, ts maxsz size l = (r, s, b) -> s = size + sumsz r.
+Proof.
+  induction l as [|e l IH]; intros maxsz size r s b H; cbn [ts] in H.
+  - inversion H. unfold sumsz. cbn. lia.
+  - destruct (maxsz <? size + esize e).
+    + inversion H. unfold sumsz. cbn. lia.
+    + destruct (ts maxsz (size + esize e) l) as [[r' s'] b'] eqn:T. inversion H; subst.
+      rewrite (IH _ _ _ _ _ T). change (e :: r') with ([e] ++ r'). rewrite sumsz_app.
+      unfold sumsz at 2. cbn. lia.
+Qed.
+
+Lemma ts_app : forall a c maxsz size, ts maxsz size (a ++ c) =
+  let '(r, s, b) := ts maxsz size a in
+  if b then (r, s, true) else let '(r2, s2, b2) := ts maxsz s c in (r ++ r2, s2, b2).
+Proof.
+  induction a as [|e a IH]; intros c maxsz size; cbn [app ts].
+  - destruct (ts maxsz size c) as [[r2 s2] b2]. reflexivity.
+  - destruct (maxsz <? size + esize e); [reflexivity|]. rewrite IH.
+    destruct (ts maxsz (size + esize e) a) as [[r s] b]. destruct b; [reflexivity|].
+    destruct (ts maxsz s c) as [[r2 s2] b2]. reflexivity.
+Qed.
+
+Lemma ts_false : forall l maxsz size r s, ts maxsz size l = (r, s, false) -> r = l.
+Proof.
+  induction l as [|e l IH]; intros maxsz size r s H; cbn [ts] in H.
+  - now inversion H.
+  - destruct (maxsz <? size + esize e); [discriminate|].
+    destruct (ts maxsz (size + esize e) l) as [[r' s'] b'] eqn:T. inversion H; subst.
+    f_equal. eapply IH; eauto.
+Qed.
+
+(* one batch *)
+Lemma iter_entries_spec : forall es low high maxsz exp size acc,
+  contig exp (filter (in_range low high) es) ->
+  iter_entries es low high maxsz exp size acc =
+  let '(r, s, b) := ts maxsz size (filter (in_range low high) es) in (rev r ++ acc, exp + nlen r, s, b).
+Proof.
+  induction es as [|e es IH]; intros low high maxsz exp size acc HC; cbn [iter_entries filter].
+  - cbn [ts rev app]. replace (exp + nlen []) with exp by (unfold nlen; cbn; lia). reflexivity.
+  - change ((low <=? e_index e) && (e_index e <? high)) with (in_range low high e).
+    destruct (in_range low high e) eqn:E.
+    + cbn [filter] in HC. rewrite E in HC. destruct HC as [HC1 HC2].
+      rewrite HC1, N.eqb_refl. cbn [negb ts].
+      destruct (maxsz <? size + esize e).
+      * cbn [rev app]. replace (exp + nlen [e]) with (exp + 1) by (unfold nlen; cbn; lia). reflexivity.
+      * rewrite (IH low high maxsz (exp + 1) (size + esize e) (e :: acc) HC2).
+        destruct (ts maxsz (size + esize e) (filter (in_range low high) es)) as [[r s] b].
+        cbn [rev]. rewrite <- app_assoc. cbn [app]. rewrite nlen_cons.
+        replace (exp + 1 + nlen r) with (exp + (nlen r + 1)) by lia. reflexivity.
+    + cbn [filter] in HC. rewrite E in HC. now apply IH.
+Qed.
+
+Lemma contig_app_inv : forall (a b : list entry) i, contig i (a ++ b) -> contig i a /\ contig (i + nlen a) b.
+Proof.
+  induction a as [|e a IH]; intros b i H; cbn [app] in *.
+  - split; [exact I|]. replace (i + nlen []) with i by (unfold nlen; cbn; lia). exact H.
+  - destruct H as [H1 H2]. destruct (IH b (i + 1) H2) as [I1 I2]. split; [split; auto|].
+    rewrite nlen_cons. replace (i + (nlen a + 1)) with (i + 1 + nlen a) by lia. exact I2.
+Qed.
+
+(* all batches *)
+Lemma iter_batches_spec : forall bs low high maxsz exp size acc,
+  contig exp (concat (map (fun b => filter (in_range low high) (restore_if_many b)) bs)) ->
+  size = sumsz (rev acc) ->
+  iter_batches bs low high maxsz exp size acc =
+  let '(r, s, b) := ts maxsz size (concat (map (fun b => filter (in_range low high) (restore_if_many b)) bs)) in
+  (rev acc ++ r, s).
+Proof.
+  induction bs as [|b0 bs IH]; intros low high maxsz exp size acc HC Hs; cbn [iter_batches map concat].
+  - cbn [ts]. rewrite app_nil_r. fold (sumsz (rev acc)). now rewrite Hs.
+  - destruct (contig_app_inv _ _ _ HC) as [C1 C2].
+    rewrite (iter_entries_spec _ _ _ _ _ _ _ C1). rewrite ts_app.
+    destruct (ts maxsz size (filter (in_range low high) (restore_if_many b0))) as [[r s] b] eqn:T.
+    destruct b.
+    + rewrite rev_app_distr, rev_involutive. reflexivity.
+    + pose proof (ts_false _ _ _ _ _ T) as Er. rewrite <- Er in C2.
+      rewrite (IH low high maxsz (exp + nlen r) s (rev r ++ acc) C2).
+      * destruct (ts maxsz s _) as [[r2 s2] b2]. rewrite rev_app_distr, rev_involutive, <- app_assoc. reflexivity.
+      * rewrite rev_app_distr, rev_involutive, sumsz_app, <- Hs. rewrite (ts_size _ _ _ _ _ _ T). lia.
+Qed.
